@@ -220,9 +220,15 @@ func (s *Translator) buildBoundEndpointTraversalPattern(partFrame *Frame, traver
 		return pgsql.Query{}, errors.New("expected previous frame for bound endpoint traversal")
 	}
 
+	// When the step opens a query part that ends in WITH, the frame before it is the wrapper frame of that part,
+	// which is still being defined; the rows to read are those of the frame before the wrapper.
+	previousFrame := partFrame.Previous
+	if validPrevious, hasValidPrevious := s.previousValidFrame(partFrame); hasValidPrevious {
+		previousFrame = validPrevious
+	}
+
 	var (
-		previousFrame = partFrame.Previous
-		nextSelect    = pgsql.Select{
+		nextSelect = pgsql.Select{
 			Projection: traversalStep.Projection,
 			From: []pgsql.FromClause{{
 				Source: pgsql.TableReference{
@@ -399,8 +405,16 @@ func (s *Translator) buildTraversalPatternRoot(partFrame *Frame, traversalStep *
 	// visited second as bound although nothing materializes it yet.
 	unboundSelfLoop := isUnboundSelfLoop(traversalStep) && (traversalStep.LeftNodeBound || traversalStep.RightNodeBound)
 
+	// The frame that materializes a bound endpoint. When the pattern opens a query part that ends in WITH, the
+	// frame before it is the wrapper frame of that part, which is still being defined; the rows to read are those
+	// of the frame before the wrapper.
+	boundSourceFrame := partFrame.Previous
+	if validPrevious, hasValidPrevious := s.previousValidFrame(partFrame); hasValidPrevious {
+		boundSourceFrame = validPrevious
+	}
+
 	if traversalStep.LeftNodeBound && !unboundSelfLoop {
-		if partFrame.Previous == nil {
+		if boundSourceFrame == nil {
 			return pgsql.Query{}, fmt.Errorf("left node is marked as bound but there is no previous frame to reference")
 		}
 
@@ -408,7 +422,7 @@ func (s *Translator) buildTraversalPatternRoot(partFrame *Frame, traversalStep *
 		// can safely reference it. No partitioning needed for this branch.
 		nextSelect.From = append(nextSelect.From, pgsql.FromClause{
 			Source: pgsql.TableReference{
-				Name: pgsql.CompoundIdentifier{partFrame.Previous.Binding.Identifier},
+				Name: pgsql.CompoundIdentifier{boundSourceFrame.Binding.Identifier},
 			},
 			Joins: []pgsql.Join{{
 				Table: pgsql.TableReference{
@@ -486,7 +500,7 @@ func (s *Translator) buildTraversalPatternRoot(partFrame *Frame, traversalStep *
 
 		nextSelect.From = append(nextSelect.From, pgsql.FromClause{
 			Source: pgsql.TableReference{
-				Name: pgsql.CompoundIdentifier{partFrame.Previous.Binding.Identifier},
+				Name: pgsql.CompoundIdentifier{boundSourceFrame.Binding.Identifier},
 			},
 			Joins: []pgsql.Join{{
 				Table: pgsql.TableReference{
@@ -746,6 +760,22 @@ func (s *Translator) applyExpansionSuffixPushdown(part *PatternPart) (int, error
 				currentStep = part.TraversalSteps[stepIndex]
 				suffixSteps = part.TraversalSteps[suffixStartIndex : suffixEndIndex+1]
 			)
+
+			// A suffix step that ends on a bound node reads that node through the frame before the expansion. When
+			// the expansion opens a query part that ends in WITH, that frame is the part's wrapper frame, which is
+			// still being defined: leave the suffix to the ordinary step translation.
+			if currentPart := s.query.CurrentPart(); currentPart.Frame != nil && currentStep.Frame != nil && currentStep.Frame.Previous == currentPart.Frame {
+				endsOnBoundNode := false
+				for _, suffixStep := range suffixSteps {
+					if suffixStep != nil && suffixStep.RightNodeBound {
+						endsOnBoundNode = true
+					}
+				}
+
+				if endsOnBoundNode {
+					continue
+				}
+			}
 
 			if candidateApplied, err := applyExpansionSuffixPushdownCandidate(currentStep, suffixSteps); err != nil {
 				return applied, err
